@@ -231,7 +231,7 @@ func main() {
 		merge(local)
 	})
 	run.Assume = []string{
-		"configuration product as in C01 (11200 key/sub-encoder combinations incl. nil and no-op) x entry variants x separators {default, |, space, ::, multi-byte} x line endings; messages and function names are non-empty (an empty column value makes the 'joined by the separator' reading ambiguous)",
+		"configuration product as in C01 (12320 key/sub-encoder combinations incl. nil and no-op) x entry variants x separators {default, |, space, ::, multi-byte} x line endings; messages and function names are non-empty (an empty column value makes the 'joined by the separator' reading ambiguous)",
 		"a nil or no-op sub-encoder yields no column; a nil name encoder falls back to the full name (documented)",
 		"the field object is compared as a decoded tree (whitespace-insensitive) with the same reference tree as C02",
 	}
